@@ -347,6 +347,19 @@ fn shim_ok_records<'s>(mapping: &ProguardMapping<'s>) -> (r: std::iter::Peekable
         wf.contract("""    ensures
         /*@L:mapper_is_the_abstract_build_of_the_record_stream:C01,C02,C03,C04*/ abs_classes(ret.classes@) == built(ok_records(mapping), initialize_param_mapping),""")
         u.emit(wf)
+        # the two public constructors: which flag they pass on
+        for name, flag in (("new", "false"), ("new_with_param_mapping", None)):
+            cf = mp.impl_fn(IMPL, name)
+            cf.ret("ret")
+            cf.contracted = True
+            cf.props_all = ["C01", "C02", "C03", "C04"]
+            cf.props_safety = ["C13"]
+            mm = re.search(r"fn\s+%s\s*\(\s*(\w+)\s*:\s*ProguardMapping<'s>\s*(?:,\s*(\w+)\s*:\s*bool\s*,?\s*)?\)" % name, cf.orig)
+            if not mm or (flag is None and not mm.group(2)):
+                raise AnchorLost("ProguardMapper::%s: parameters of unknown shape" % name)
+            cf.contract("""    ensures
+        /*@L:constructor_builds_the_mapper_of_the_record_stream:C01,C02,C03,C04*/ abs_classes(ret.classes@) == built(ok_records(%s), %s),""" % (mm.group(1), flag or mm.group(2)))
+            u.emit(cf)
         u.raw("}\n", "glue")
     u.raw(FOOTER, "footer")
     return u
